@@ -62,6 +62,10 @@ IncrementSurvivesWire == j = 0 => \A p \in 1..Len(NodeSeq) : Inc[i][p].err \/ In
 MergeSurvivesWire == j > 0 => T.mergeWire[i][j]
 LongNodeIds == j = 0 => T.longIds = 0     \* node ids of 1, 17, 255 and 256 bytes (the longest legal one) round-trip
 OperandsUntouched == j = 0 => T.mutated = 0
+\* two disjoint vectors of 40 000 ids and a small third one: failed observations (union complete, upper bound, both orders equal)
+LargeMerge == j = 0 => T.largeMerge = 0
+\* vectors serialised from 48 goroutines at once: round trips that did not give back what was written
+ConcurrentWire == j = 0 => T.concurrentWire = 0
 
 \* ---- laws over pairs and (through k) triples ------------------------------
 Converse       == j > 0 => Cmp[j][i] = Conv(Cmp[i][j])
